@@ -902,23 +902,18 @@ impl S3 for FileSystem {
 
         let object_path = self.get_object_path(&bucket, &key)?;
 
-        let mut cnt: i32 = 0;
-        let total_parts_cnt = multipart_upload
-            .parts
-            .as_ref()
-            .map(|parts| i32::try_from(parts.len()).expect("total number of parts must be <= 10000."))
-            .unwrap_or_default();
-
         // validate the part list and the uploaded parts before anything is changed
+        // (part numbers need not be consecutive: they must be listed in strictly ascending order)
+        let mut prev: Option<i32> = None;
         let mut parts: Vec<(i32, PathBuf, u64)> = Vec::new();
         for part in multipart_upload.parts.into_iter().flatten() {
             let part_number = part
                 .part_number
                 .ok_or_else(|| s3_error!(InvalidRequest, "missing part number"))?;
-            cnt += 1;
-            if part_number != cnt {
+            if prev.is_some_and(|prev| part_number <= prev) {
                 return Err(s3_error!(InvalidRequest, "invalid part order"));
             }
+            prev = Some(part_number);
 
             let part_path = self.resolve_upload_part_path(upload_id, part_number)?;
             let Ok(part_meta) = fs::metadata(&part_path).await else {
@@ -926,8 +921,9 @@ impl S3 for FileSystem {
             };
             parts.push((part_number, part_path, part_meta.len()));
         }
-        for &(part_number, _, size) in &parts {
-            if part_number != total_parts_cnt && size < 5 * 1024 * 1024 {
+        // every part but the last listed one has the minimum size
+        if let Some((_, others)) = parts.split_last() {
+            if others.iter().any(|&(_, _, size)| size < 5 * 1024 * 1024) {
                 return Err(s3_error!(EntityTooSmall));
             }
         }
